@@ -183,8 +183,18 @@ CLAIMED = {
         "statistical: support evidence under margin guards only (DESIGN section 6). Trusted: Coq kernel and vm_compute, the hand-written models of C05/C06/C07/C08, the harness, "
         "TF/NumPy/sklearn/cv2 semantics, the row-wise score assumption. HSIC NaN at median 0 not exercised.",
    design="5 (C05)", technique="Coq index-algebra proofs (div/mod uniqueness, grid_flat) + corollaries of C06/C07/C08 model theorems + predicate evaluation inside Coq on implementation outputs"),
+ "C20": dict(
+   text="22 machine-checked theorems on the executable model of CraftTorch: both permutes and both reshapes as index arithmetic (location (n,h,w) keeps its row), transform "
+        "independent of the batch size, crop anchors and count, concept importance = mean over inputs of Jansen's total index of the class logit under concept-wise masking "
+        "of the coefficients (in design order, every batch size), non-negative, invariant under affine rescaling of the logits (k != 0), exactly zero for a concept the logit "
+        "ignores (in particular a zero bank row); Jansen estimator and replicated design reused from C08. Tied to /repo on 40 CraftTorch cases per run: crops exactly, transform "
+        "exactly (NMF as a recorded row table), every activation the head receives, importances under tolerance, affine invariance and zero bank row on the implementation.",
+   note="Trusted / checked at run time only: the NMF fit and transform values, non-negativity of U / W / transform output (scikit-learn's contract, checked on the implementation), "
+        "the bilinear resize of crops; float32 covered by tolerance (1e-5 relative on head inputs, 5e-5 on importances) with a variance guard; scikit-learn's transform is not "
+        "row-wise (it is a matrix function in the model); CraftTf is not exercised (Keras 3 incompatibilities of the sandbox), CraftTorch is.",
+   design="5 (C20)", technique="Gallina model over Qc of the CraftTorch reshapes / permutes / batching and of estimate_importance, reuse of the C08 Jansen theorems; vm_compute correspondence on recorded library observations"),
 }
-PENDING_REASON = "check not built yet in this session (work in progress; planned in DESIGN.md section 5)"
+PENDING_REASON = "check not built yet (planned in DESIGN.md section 5)"
 
 checks = []
 for i in ids:
